@@ -217,6 +217,9 @@ def check_pair(ctx, P, t, a, base=None):
     return base
 
 
+_GC = [0]
+
+
 def check_concat(ctx, specs):
     case = lambda: {'kind': 'concat', 'msgs': [[t, a] for t, a in specs]}  # noqa: E731
     msgs = [Message(t, **a) for t, a in specs]
@@ -242,9 +245,11 @@ def check_concat(ctx, specs):
         p.feed(stream)
         got5 = list(dq)
         ctx.check('concatenation parses back', got5 == msgs, 'concat-held-deque', case, lambda: {'got': [m.hex() for m in got5][:8]})
-        import gc
         dq2 = Parser(stream).messages
-        gc.collect()
+        _GC[0] += 1
+        if _GC[0] % 16 == 0:                  # (reference counting has freed the parser already; a full collection now and then)
+            import gc
+            gc.collect()
         got6 = list(dq2)
         ctx.check('concatenation parses back', got6 == msgs, 'concat-deque-of-temporary-parser', case, lambda: {'got': [m.hex() for m in got6][:8]})
         poke(got)
